@@ -270,6 +270,8 @@ def judge(case):
             a[case["i"]] = val
             kk = case["s"]
             res = {"add": A + B, "sub": A - B, "mul-scalar": A * kk, "rmul-scalar": kk * A, "neg": -A, "cross": A.cross(B), "radd": B + A}
+            pa = G.Point(A)
+            res_pt = [pa.x, pa.y, pa.z]
         except Exception as e:
             mu.fail("promotion-after-assignment:raises-%s/%s" % (type(e).__name__, t2), "vector algebra after v[i] = %s raised %s: %s" % (t2, type(e).__name__, e))
             return mu.result()
@@ -278,6 +280,9 @@ def judge(case):
         want = {"add": [x + y for x, y in zip(fa, fb)], "radd": [x + y for x, y in zip(fa, fb)], "sub": [x - y for x, y in zip(fa, fb)],
                 "mul-scalar": [x * kk for x in fa], "rmul-scalar": [x * kk for x in fa], "neg": [-x for x in fa],
                 "cross": [fa[1] * fb[2] - fa[2] * fb[1], fa[2] * fb[0] - fa[0] * fb[2], fa[0] * fb[1] - fa[1] * fb[0]]}
+        if any(type(x) is not PYT[t2] for x in res_pt) or [ex(x) for x in res_pt] != fa:
+            mu.fail("promotion-after-assignment:Point(vector):mixed-types/%s" % t2, "Point(v) of a vector with components %r has coordinates %r of types %s" % (
+                a, res_pt, [type(x).__name__ for x in res_pt]))
         for op, v in res.items():
             gc = _comps(v)
             if any(type(x) is not PYT[t2] for x in gc):
